@@ -13,6 +13,7 @@ import (
 func init() {
 	vpRegister("c18_validate", vpH_c18_validate)
 	vpRegister("c18_loadkey", vpH_c18_loadkey)
+	vpRegister("c18_reload", vpH_c18_reload)
 }
 
 // the property's table
@@ -87,5 +88,57 @@ func vpH_c18_loadkey() {
 	if pick >= 0 && err == nil {
 		a, _ := got.Get(jwk.AlgorithmKey)
 		vpAssert(a != nil, "the returned key carries its algorithm")
+	}
+}
+
+// the rule holds for every load in a history of loads in one process: what an
+// earlier load accepted (or rejected) does not change the verdict on a later
+// file, even one that holds the same key material under another declaration
+func vpH_c18_reload() {
+	kty := "OKP"
+	okAlg := "EdDSA"
+	switch vpInt(0, 2) {
+	case 1:
+		kty, okAlg = "EC", "ES512"
+	case 2:
+		kty, okAlg = "RSA", "PS512"
+	}
+	base := vpAbstractKey(true, true, 0, okAlg, kty, "k")
+	loads := vpParam("loads")
+	for i := 0; i < loads; i++ {
+		hasAlg := vpBool()
+		alg := okAlg
+		switch vpInt(0, 4) {
+		case 1:
+			alg = "ES256"
+		case 2:
+			alg = "HS512"
+		case 3:
+			alg = "RS256"
+		case 4:
+			alg = "EdDSA"
+		}
+		kid := "k"
+		if vpBool() {
+			kid = "j"
+		}
+		var key jwk.Key
+		if vpBool() {
+			key = vpAbstractKeyLike(base, hasAlg, 0, alg, kid) // same material as before
+		} else {
+			key = vpAbstractKey(true, hasAlg, 0, alg, kty, kid) // fresh material
+		}
+		want := ""
+		if vpBool() {
+			want = kid
+		}
+		path := vpKeySetFile(vpAbstractSet(key))
+		got, err := LoadKey(path, want)
+		vpCleanup()
+		if hasAlg && alg == okAlg {
+			vpAssert(err == nil && got != nil, "an approved key loads, whatever was loaded before")
+		} else {
+			vpAssert(err != nil && got == nil, "a key with a missing or unapproved algorithm is rejected, whatever was loaded before")
+		}
 	}
 }
